@@ -52,10 +52,15 @@ pub enum Act {
     DisconnectAll,
     NewLocal(u64),
     DisconnectLocal(u64),
+    /// disconnect_local_client with the handle of the previous local session of that id (clean-up code that kept it)
+    DisconnectLocalOldHandle(u64),
     ProcessLocal(u64),
     Send(u64),
     SendOverBudget(u64),
     Broadcast,
+    BroadcastOverBudget,
+    BroadcastExcept(u64),
+    BroadcastExceptOverBudget(u64),
     Receive(u64),
     PacketValid(u64),
     PacketBadChannel(u64),
@@ -75,6 +80,8 @@ pub struct ServerWorld {
     /// ids that may be local clients
     pub local_ids: Vec<u64>,
     pub local: Vec<Option<RenetClient>>,
+    /// the handle new_local_client returned the time before (kept by the application)
+    pub old_local: Vec<Option<RenetClient>>,
     /// per id: is the application currently told "connected"?
     pub reported_in: Vec<bool>,
     /// per id: first reason disconnect_reason(id) showed for the current connection object
@@ -82,6 +89,8 @@ pub struct ServerWorld {
     pub exists: Vec<bool>,
     pub next_seq: u64,
     pub flags: u64,
+    /// set by step() before a DisconnectLocalOldHandle call
+    pub old_handle_was_alive: bool,
 }
 
 impl ServerWorld {
@@ -91,11 +100,13 @@ impl ServerWorld {
             ids: vec![1, 2],
             local_ids: vec![2],
             local: vec![None, None],
+            old_local: vec![None, None],
             reported_in: vec![false, false],
             first_reason: vec![None, None],
             exists: vec![false, false],
             next_seq: 0,
             flags: 0,
+            old_handle_was_alive: false,
         }
     }
 
@@ -137,7 +148,13 @@ impl ServerWorld {
                     let expected = match self.first_reason[i] {
                         Some(r) => r,
                         None => {
-                            if matches!(action, Act::DisconnectLocal(_)) && healthy_before[i] {
+                            // with an old handle the exemption only holds if that handle was still alive before the call
+                            let by_live_handle = match action {
+                                Act::DisconnectLocal(_) => true,
+                                Act::DisconnectLocalOldHandle(_) => self.old_handle_was_alive,
+                                _ => false,
+                            };
+                            if by_live_handle && healthy_before[i] {
                                 DisconnectReason::DisconnectedByClient
                             } else {
                                 DisconnectReason::Transport
@@ -296,6 +313,9 @@ impl World for ServerWorld {
             v.push(Act::Disconnect(id));
             if is_local {
                 v.push(Act::NewLocal(id));
+                if self.old_local[self.idx(id)].is_some() {
+                    v.push(Act::DisconnectLocalOldHandle(id));
+                }
                 if self.local[self.idx(id)].is_some() {
                     v.push(Act::DisconnectLocal(id));
                     v.push(Act::ProcessLocal(id));
@@ -316,12 +336,21 @@ impl World for ServerWorld {
         }
         v.push(Act::DisconnectAll);
         v.push(Act::Broadcast);
+        v.push(Act::BroadcastOverBudget);
+        for &id in &self.ids {
+            v.push(Act::BroadcastExcept(id));
+            v.push(Act::BroadcastExceptOverBudget(id));
+        }
         v.push(Act::Update);
         v
     }
 
     fn step(&mut self, a: &Act) -> Result<(), Violation> {
         let healthy_before: Vec<bool> = self.ids.iter().map(|&id| self.srv.verif_connection_ids().contains(&id) && self.srv.disconnect_reason(id).is_none()).collect();
+        if let Act::DisconnectLocalOldHandle(id) = a {
+            let i = self.idx(*id);
+            self.old_handle_was_alive = self.old_local[i].as_ref().map(|c| !c.is_disconnected()).unwrap_or(false);
+        }
         let srv = &mut self.srv;
         let seq = self.next_seq;
         if matches!(a, Act::PacketValid(_) | Act::PacketBadChannel(_) | Act::PacketBudget(_)) {
@@ -335,8 +364,17 @@ impl World for ServerWorld {
             Act::NewLocal(id) => {
                 let i = self.ids.iter().position(|x| x == id).unwrap();
                 let c = guard("new_local_client", || srv.new_local_client(*id))?;
-                // the application keeps the newest handle
+                // the application keeps the newest handle (and remembers the one before)
+                if let Some(prev) = self.local[i].take() {
+                    self.old_local[i] = Some(prev);
+                }
                 self.local[i] = Some(c);
+            }
+            Act::DisconnectLocalOldHandle(id) => {
+                let i = self.ids.iter().position(|x| x == id).unwrap();
+                if let Some(c) = self.old_local[i].as_mut() {
+                    guard("disconnect_local_client", || srv.disconnect_local_client(*id, c))?;
+                }
             }
             Act::DisconnectLocal(id) => {
                 let i = self.ids.iter().position(|x| x == id).unwrap();
@@ -367,6 +405,9 @@ impl World for ServerWorld {
             Act::Send(id) => guard("send_message", || srv.send_message(*id, 1u8, vec![1u8; 10]))?,
             Act::SendOverBudget(id) => guard("send_message", || srv.send_message(*id, 1u8, vec![1u8; 400]))?,
             Act::Broadcast => guard("broadcast_message", || srv.broadcast_message(1u8, vec![2u8; 10]))?,
+            Act::BroadcastOverBudget => guard("broadcast_message", || srv.broadcast_message(1u8, vec![2u8; 400]))?,
+            Act::BroadcastExcept(id) => guard("broadcast_message_except", || srv.broadcast_message_except(*id, 1u8, vec![3u8; 10]))?,
+            Act::BroadcastExceptOverBudget(id) => guard("broadcast_message_except", || srv.broadcast_message_except(*id, 1u8, vec![3u8; 400]))?,
             Act::Receive(id) => {
                 guard("receive_message", || {
                     let _ = srv.receive_message(*id, 1u8);
@@ -422,7 +463,7 @@ impl World for ServerWorld {
                 None => 0u8.hash(&mut h),
             }
         }
-        for lc in &self.local {
+        for lc in self.local.iter().chain(self.old_local.iter()) {
             match lc {
                 Some(c) => {
                     1u8.hash(&mut h);
